@@ -2,5 +2,5 @@
 from checks import seqcheck
 
 def main(tier, seed, replay):
-    return seqcheck.main("C01", "Properties/C01.v", tier, seed, replay, scenarios=[None, 'two@real', 'crash@real','loadrace'],
+    return seqcheck.main("C01", "Properties/C01.v", tier, seed, replay, scenarios=[None, 'two@real', 'crash@real','loadrace','startup@real'],
                          own_prefixes=tuple("C01".split(",")), known_prefixes=("C06-stale-upload",) if "C01" == "C06" else ())
